@@ -50,7 +50,7 @@ Definition sperm : node -> node -> Prop := clos_refl_trans node sperm1.
 
 
 Section Fx.
-Variable fx : bool.   (* false: code before the fix: commits; true: repaired code *)
+Variable fx : bool.   (* true: current code; false: behaviour before fix commits 81fa420, 1bd4096, 0643166 *)
 
 (* ---------------------------------------------------------------- A || B *)
 
